@@ -298,27 +298,38 @@ func main() {
 		fmt.Fprintf(os.Stderr, "LOAD FAILURE: %v\n", err)
 		os.Exit(2)
 	}
+	namesFile := filepath.Join(*verif, "checker", "baseline_names.json")
 	if *names {
-		out := map[string][]string{}
+		params := map[string][]string{}
+		locals := map[string][][2]string{}
 		for _, fn := range prog.Funcs {
 			var ns []string
 			for _, prm := range fn.Params {
 				ns = append(ns, prm.Name())
 			}
 			if len(ns) > 0 {
-				out[prog.FuncKey(fn)] = ns
+				params[prog.FuncKey(fn)] = ns
+			}
+			if ls := namedLocals(fn); len(ls) > 0 {
+				locals[prog.FuncKey(fn)] = ls
 			}
 		}
-		b, _ := json.MarshalIndent(out, "", " ")
-		if err := os.WriteFile(filepath.Join(*verif, "checker", "baseline_names.json"), append(b, '\n'), 0o644); err != nil {
+		b, _ := json.MarshalIndent(map[string]any{"params": params, "locals": locals}, "", " ")
+		if err := os.WriteFile(namesFile, append(b, '\n'), 0o644); err != nil {
 			fmt.Fprintln(os.Stderr, err)
 			os.Exit(2)
 		}
-		fmt.Printf("%d functions\n", len(out))
+		fmt.Printf("%d functions with parameters, %d with named locals\n", len(params), len(locals))
 		return
 	}
-	if b, err := os.ReadFile(filepath.Join(*verif, "checker", "baseline_names.json")); err == nil {
-		_ = json.Unmarshal(b, &prog.Names)
+	if b, err := os.ReadFile(namesFile); err == nil {
+		var nf struct {
+			Params map[string][]string    `json:"params"`
+			Locals map[string][][2]string `json:"locals"`
+		}
+		if json.Unmarshal(b, &nf) == nil {
+			prog.Names, prog.Locals = nf.Params, nf.Locals
+		}
 	}
 	if *dump != "" {
 		dumpFunc(prog, *dump)
